@@ -8,6 +8,7 @@ Shapes: K = 1..16 (the property's own bound, exhaustive), ± invariant, ± μ, p
 """
 import torch
 
+from vt.runner import Refuted
 from vt.scenario import scenario_ob
 
 FUNCS = [
@@ -193,6 +194,54 @@ def scn_sequence_views(kind, through, order, K=3):
     return scn
 
 
+def ob_models_one_process():
+    """several site models built in one process - other category counts, another dtype, with / without invariant class, built BEFORE the model
+    under test: the model under test (float64) still has probabilities exactly 1/K (or p, (1-p)/K), float64, and mean rate mu to 1e-14"""
+    def body():
+        from torchtree.core.parameter import Parameter
+        from torchtree.evolution.site_model import InvariantSiteModel, WeibullSiteModel
+        P = lambda v, dt: Parameter(None, torch.tensor(v, dtype=dt))
+        n = 0
+        for first_dtype in (torch.float32, torch.float64):
+            for K in (1, 2, 3, 5, 6, 7, 10):
+                # models built first, in the same process
+                WeibullSiteModel("w32", P([0.7], first_dtype), K).rates()
+                WeibullSiteModel("w32i", P([0.7], first_dtype), K, P([0.2], first_dtype)).probabilities()
+                InvariantSiteModel("i32", P([0.3], first_dtype)).rates()
+                for with_inv, with_mu in ((False, False), (False, True), (True, True)):
+                    inv = P([0.25], torch.float64) if with_inv else None
+                    mu = P([2.5], torch.float64) if with_mu else None
+                    m = WeibullSiteModel("w", P([0.45], torch.float64), K, inv, mu)
+                    r, p = m.rates(), m.probabilities()
+                    n += 1
+                    want_p = [0.25] + [0.75 / K] * K if with_inv else [1.0 / K] * K
+                    problems = []
+                    if p.dtype != torch.float64 or r.dtype != torch.float64:
+                        problems.append("dtype of probabilities / rates is %s / %s for float64 parameters" % (p.dtype, r.dtype))
+                    if any(abs(float(a) - b) > 1e-15 for a, b in zip(p.reshape(-1), want_p)):
+                        problems.append("probabilities %s, expected %s" % ([float(v) for v in p.reshape(-1)], want_p))
+                    mean = float((r.double() * torch.tensor(want_p, dtype=torch.float64)).sum())
+                    if abs(mean - (2.5 if with_mu else 1.0)) > 1e-13:
+                        problems.append("weighted mean rate %r, expected %r" % (mean, 2.5 if with_mu else 1.0))
+                    if problems:
+                        raise Refuted("Weibull site model (K=%d, invariant=%s, mu=%s, float64) built after %s models of the same category count: %s" % (
+                            K, with_inv, with_mu, str(first_dtype)[6:], "; ".join(problems)), witness={"K": K, "first_dtype": str(first_dtype)}, confirmed=True,
+                            replay={"kind": "custom", "contract": "C05", "func": "replay_models_one_process", "args": {}})
+        return {"backend": "concrete", "cases": n, "bounded": "K in 1,2,3,5,6,7,10; models of float32 / float64 built first",
+                "statement": "%d site models built after other models in the same process have exact probabilities, float64 results and mean rate mu" % n}
+    from vt.runner import Ob
+    return Ob("C05.models_in_one_process", "B", body, clause="the postconditions do not depend on which site models were built before (bounded)", funcs=FUNCS)
+
+
+def replay_models_one_process(args):
+    from vt.runner import Refuted
+    try:
+        ob_models_one_process().fn()
+    except Refuted as e:
+        return False, e.detail
+    return True, "held"
+
+
 def obligations(tier, seed):
     obs = []
     META["exhaustive"] = (tier == "thorough")   # K = 1..16 is enumerated completely only in the thorough tier
@@ -217,6 +266,7 @@ def obligations(tier, seed):
                     for K_ in ((1, 3) if tier == "quick" else (1, 2, 3, 4)):
                         add("C05.sequence.weibull[K=%d,inv=%s,mu=%s,update %s then %s]" % (K_, with_inv, with_mu, "+".join(up), order), "scn_sequence",
                             ("weibull", order, with_inv, with_mu, up, K_), "postconditions hold for the current values after an update, in any request order")
+    obs.append(ob_models_one_process())
     for kind in ("invariant", "weibull"):
         for through in ("own", "parent", "block", "sibling"):
             for order in ("rp", "pr"):
